@@ -386,17 +386,19 @@ theorem C25_flatten_one_partial {κ : Type} (resolve : κ → List UInt8 → Opt
   ### What is not proved (gap)
 
   The property's literal wording — "the same records as parsing the equivalent file with each
-  `$INCLUDE` replaced by the included file's contents" — is proved in the decomposed form of
-  `C25_include_is_textual_partial` (built on `C25_machine_refines_spec` and `C25_parse_append`):
-  tree reading and flat reading of the spliced text yield the same records for the included
-  text and then read the same remaining text from contexts that differ only in the origin
-  (restored by the tree reading — the "origin scoping") and in the line counter.  Not proved:
-  that reading a text from two line counters yields the same records up to their line numbers
-  (needed to state one equation between record lists for a whole flattened file, together with
-  `$ORIGIN` lines that emulate the origin scoping when the includer's origin is set), and the
-  case of nested `$INCLUDE`s inside the included file.  On every run the literal form is
-  checked by the harness's flattening oracle (op `incflat`: the flattened single file is parsed
-  by the real in-memory parser; the record lists must be equal).
+  `$INCLUDE` replaced by the included file's contents" — is proved
+   * as one equation between record lists for one `$INCLUDE` whose file leaves the includer's
+     origin in place (`C25_flatten_one_partial`, built on `C25_machine_refines_spec`,
+     `C25_parse_append`, `C25_line_shift` and `C25_ends_outside_parens`), and
+   * in decomposed form for any origin (`C25_include_is_textual_partial`): tree reading and flat
+     reading yield the same records for the included text and then read the same remaining text
+     from contexts that differ only in the origin (restored by the tree reading — the "origin
+     scoping") and in the line counter.
+  Not proved: the equation for a whole tree with several or nested `$INCLUDE`s, with `$ORIGIN`
+  lines in the flattened text that emulate the origin scoping (it needs the standalone parse of
+  the text *between* includes, i.e. replacing a suffix of the input rather than appending one).
+  On every run the literal form is checked by the harness's flattening oracle (op `incflat`: the
+  flattened single file is parsed by the real in-memory parser; the record lists must be equal).
 -/
 
 /-! ### non-vacuity: a concrete tree, run through machine and semantics -/
